@@ -450,7 +450,9 @@ class LibMixin:
     def call_libclass(self, c: LibClass, args, kwargs, run, node):
         n = c.name
         L = LibClass.get
-        if any(isinstance(a, Sym) for a in list(args) + list(kwargs.values())):
+        if any(not is_concrete(a) for a in list(args) + list(kwargs.values())):
+            # deep check: a tuple/list holding a symbol must never reach a native constructor
+            # (a native TypeError on an abstract value is an analysis artefact, not behaviour)
             return self.sym_call_libclass(c, args, kwargs, run, node)
         if n in ("int", "str", "float", "bool", "bytes"):
             if n == "str" and len(args) == 1 and not isinstance(args[0], (str, int, float, bytes)) and args[0] is not None:
@@ -1001,14 +1003,24 @@ class LibMixin:
             return DictV(dict(d.d), site=self.site(node))
         if name == "setdefault":
             k = a[0]
+            dv = a[1] if len(a) > 1 else None
+            if k not in d.d and d.may and k in d.may:
+                # key present only on some paths of an earlier loop: the wire value if stored, else the default
+                stored = d.may.pop(k)
+                d.d[k] = Sym(("maybe", tuple(term_of(s) for s in stored), term_of(dv)), "any", alts=list(stored) + [dv])
+                return d.d[k]
             if k not in d.d:
-                self.setitem(d, k, a[1] if len(a) > 1 else None, run, node)
+                self.setitem(d, k, dv, run, node)
             return d.d[k]
         if name == "update":
             src = a[0] if a else DictV({})
             if isinstance(src, DictV):
                 for k, v in src.d.items():
                     self.setitem(d, k, v, run, node)
+                for k, vs in (src.may or {}).items():
+                    if k not in src.d:
+                        d.may = d.may or {}
+                        d.may.setdefault(k, []).extend(vs)
             for k, v in kw.items():
                 self.setitem(d, k, v, run, node)
             return None
